@@ -78,6 +78,10 @@ type simNode struct {
 	// AutoLeave of the node's configuration, as returned by the last ApplyConfChange
 	// (Status().Config is a Clone() that does not carry it)
 	autoLeave bool
+	// ConfState after each applied conf-change entry (real index -> state), on top of csBase, the
+	// ConfState of the storage's snapshot: a compaction at index i must record the ConfState as of i
+	csAt   map[uint64]pb.ConfState
+	csBase pb.ConfState
 }
 
 // a message on the network; ghost = for MsgSnap, the sender's log up to the snapshot index
@@ -204,7 +208,17 @@ func msgKey(fm flightMsg) string {
 	case pb.MsgHeartbeatResp:
 		return fmt.Sprintf("I %d %d %d 0 0 0 0 0", m.From, m.To, m.Term)
 	case pb.MsgSnap:
-		return fmt.Sprintf("S %d %d %d %d %d 0 0 %s", m.From, m.To, m.Term, m.Snapshot.Metadata.Term, monus1(m.Snapshot.Metadata.Index), entsStr(fm.ghost))
+		// the reject field is ghost for MsgSnap: 1 = the receiver is not in the snapshot's ConfState
+		cs := m.Snapshot.Metadata.ConfState
+		out := 1
+		for _, set := range [][]uint64{cs.Voters, cs.Learners, cs.VotersOutgoing} {
+			for _, id := range set {
+				if id == m.To {
+					out = 0
+				}
+			}
+		}
+		return fmt.Sprintf("S %d %d %d %d %d 0 %d %s", m.From, m.To, m.Term, m.Snapshot.Metadata.Term, monus1(m.Snapshot.Metadata.Index), out, entsStr(fm.ghost))
 	case pb.MsgProp:
 		p := uint64(0)
 		if len(m.Entries) > 0 {
@@ -244,7 +258,7 @@ func newCluster(n, electionTick int, rngseed uint64, maxSize uint64, ccVoters in
 		if err := st.ApplySnapshot(pb.Snapshot{Metadata: pb.SnapshotMetadata{Index: 1, Term: 0, ConfState: pb.ConfState{Voters: voters}}}); err != nil {
 			return nil, err
 		}
-		nd := &simNode{id: uint64(i + 1), st: st}
+		nd := &simNode{id: uint64(i + 1), st: st, csAt: map[uint64]pb.ConfState{}, csBase: pb.ConfState{Voters: voters}}
 		rn, err := raft.NewRawNode(c.config(nd))
 		if err != nil {
 			return nil, err
@@ -274,6 +288,9 @@ func (c *cluster) drain(nd *simNode) []pb.Message {
 				panic("harness: snapshot without its ghost prefix")
 			}
 			nd.shadow = append([]pb.Entry(nil), nd.pendingGhost[:k]...)
+			nd.csBase = rd.Snapshot.Metadata.ConfState
+			nd.csAt = map[uint64]pb.ConfState{}
+			nd.autoLeave = nd.csBase.AutoLeave
 		}
 		if len(rd.Entries) > 0 {
 			at := int(rd.Entries[0].Index) - 2 // position in shadow of the first new entry
@@ -298,13 +315,17 @@ func (c *cluster) drain(nd *simNode) []pb.Message {
 				if err := cc.Unmarshal(e.Data); err != nil {
 					panic(err)
 				}
-				nd.autoLeave = nd.rn.ApplyConfChange(cc).AutoLeave
+				cs := nd.rn.ApplyConfChange(cc)
+				nd.autoLeave = cs.AutoLeave
+				nd.csAt[e.Index] = *cs
 			case pb.EntryConfChangeV2:
 				var cc pb.ConfChangeV2
 				if err := cc.Unmarshal(e.Data); err != nil {
 					panic(err)
 				}
-				nd.autoLeave = nd.rn.ApplyConfChange(cc).AutoLeave
+				cs := nd.rn.ApplyConfChange(cc)
+				nd.autoLeave = cs.AutoLeave
+				nd.csAt[e.Index] = *cs
 			}
 		}
 		nd.rn.Advance(rd)
@@ -318,7 +339,7 @@ func (c *cluster) rebuild(nd *simNode) {
 		panic(err)
 	}
 	nd.rn = rn
-	nd.autoLeave = false // the storage's ConfState; committed conf changes are re-applied by the Ready loop
+	nd.autoLeave = nd.csBase.AutoLeave // the storage's ConfState; later committed conf changes are re-applied by the Ready loop
 }
 
 func (c *cluster) writeState(nd *simNode) {
@@ -401,16 +422,27 @@ func (c *cluster) exec(kind string, i int, payload int, m *flightMsg) (ok bool) 
 	case "R":
 		c.rebuild(nd)
 	case "K":
-		// compact the log up to model index payload (real index payload+1), which is applied
-		voters := make([]uint64, c.n)
-		for k := range voters {
-			voters[k] = uint64(k + 1)
+		// compact the log up to model index payload (real index payload+1), which is applied; the
+		// snapshot records the ConfState as of that index
+		idx := uint64(payload + 1)
+		cs := nd.csBase
+		best := uint64(0)
+		for k, v := range nd.csAt {
+			if k <= idx && k > best {
+				best, cs = k, v
+			}
 		}
-		if _, err := nd.st.CreateSnapshot(uint64(payload+1), &pb.ConfState{Voters: voters}, nil); err != nil {
+		if _, err := nd.st.CreateSnapshot(idx, &cs, nil); err != nil {
 			panic(err)
 		}
-		if err := nd.st.Compact(uint64(payload + 1)); err != nil {
+		if err := nd.st.Compact(idx); err != nil {
 			panic(err)
+		}
+		nd.csBase = cs
+		for k := range nd.csAt {
+			if k <= idx {
+				delete(nd.csAt, k)
+			}
 		}
 	case "SR":
 		nd.rn.ReportSnapshot(uint64(payload), raft.SnapshotFailure)
@@ -465,9 +497,11 @@ func (c *cluster) runRandom(r *rng, nevents int) {
 	p := profile{wDeliver: 50 + r.intn(40), wDup: r.intn(8), wDrop: r.intn(10), wTick: 4 + r.intn(12),
 		wPropose: 4 + r.intn(12), wCampaign: 1 + r.intn(6), wRestart: r.intn(5), wCrashMid: r.intn(4), wPartition: r.intn(3)}
 	if c.ccVoters > 0 {
-		// membership-change schedules: no compaction (a snapshot would need the ConfState as of
-		// its index), conf changes instead
+		// membership-change schedules: conf changes, and in half of them compaction as well
 		p.wConf = 2 + r.intn(8)
+		if r.chance(1, 2) {
+			p.wCompact = 1 + r.intn(6)
+		}
 	} else if c.snapHeavy {
 		p.wCompact = 6 + r.intn(6)
 		p.wDup += 6
